@@ -65,6 +65,13 @@ class Drillhole(Points):
         self._locations = None
         self._default_collocation_distance = 1e-2
 
+        # An explicit end of hole takes precedence over the depth of the last
+        # survey (set by the surveys setter), whatever the order of the arguments.
+        if "surveys" in kwargs:
+            for key in ("end_of_hole", "End of hole"):
+                if key in kwargs:
+                    kwargs[key] = kwargs.pop(key)
+
         super().__init__(object_type, **kwargs)
 
     @classmethod
